@@ -72,8 +72,10 @@ def extract_split(E, cx_factory=None):
                         'randn': cx.state.get('randn_calls', []), 'value_calls': cx.state.get('value_calls', [])})
         return r
     n0 = len(E.all_obligations)
-    E.explore(run, 'extract')
+    results = E.explore(run, 'extract')
     E.verifying = None
+    # no path of the miss branch may raise: a path that raises yields no record and would silently drop its obligations (vacuity guard)
+    extract_split.raised = [f'{out[1].cls}: {out[1].msg} (line {out[1].lineno})' for _cx, out in results if out[0] == 'raise']
     return records, E.all_obligations[n0:]
 
 
